@@ -875,7 +875,7 @@ int disasm_msp430(
           num = (opcode >> 4) & 0xf;
           wa = (opcode >> 8) & 0x1;
           snprintf(instruction, length, "popm.%c #%d, %s",
-            mode[wa], num+1, regs[dst]);
+            mode[wa], num+1, regs[(dst + num) & 0xf]);
           *cycles_min = 2 + (num + 1) * (wa + 1);
           *cycles_max = *cycles_min;
           count += 2;
